@@ -5,7 +5,7 @@ VERIF = os.path.abspath(os.path.join(os.path.dirname(__file__), '..', '..'))
 
 TECH = ('explicit TLA+ specification (spec/Contract.tla = contract L0, spec/Ring.tla = mechanism L1) checked by TLC: '
         'refinement L1 => L0 exhaustively for small capacities; conformance in both directions: every TLC-enumerated '
-        'behaviour of L1 is replayed into the real crate, and the recorded trace is validated by TLC against L0 (spec/Trace.tla)')
+        'behaviour of L1 (one call from every layout, and TLC-simulated multi-call histories from new()) is replayed into the real crate, and the recorded trace is validated by TLC against L0 (spec/Trace.tla)')
 
 NOTE = ('trusted base: TLC + CommunityModules JSON, rustc/cargo, the harness crate /verif/harness (records calls and user callbacks, '
         'judges nothing). Bounded: capacities 0..4 (quick) / 0..5 (thorough), one injected fault per scenario; the hand transcription '
@@ -20,10 +20,10 @@ P = {
     'C05': ('model_checking', 'every destructor invocation of every element-destroying call is made to panic once (enumerated by TLC on L1); contract: never a second destructor run, valid buffer afterwards, follow-up calls behave', '7'),
     'C06': ('model_checking', 'every clone / closure / iterator invocation of every call running user code is made to panic once; contract: valid buffer, no double drop, nothing created is leaked once the buffer is dropped', '7'),
     'C07': ('model_checking', 'after every call the full accessor table (get, nth_*, front/back, index, iter, range, as_slices and all _mut forms, positions 0..len+1 and usize::MAX) is recorded with element addresses; TLC checks every row against the abstract sequence and the slot map', '7'),
-    'C08': ('model_checking', 'every interleaving of next/next_back (one past exhaustion) with len after every step or never, for iter/iter_mut/range/range_mut over every layout and every canonical range; every RangeBounds form for creation', '7'),
-    'C09': ('model_checking', 'drain over every layout x every range (all RangeBounds forms) x every consumption script, then drop: yielded ids, len, contents afterwards, destructor runs; includes capacity 0', '7'),
+    'C08': ('model_checking', 'every interleaving of next/next_back (one past exhaustion) with len after every step or never, for iter/iter_mut/range/range_mut over every layout and every canonical range; every RangeBounds form for creation; nth/nth_back (k = 0..2) as first or second step and the by-value provided methods fold, rfold, for_each, collect, rev().collect, count, last after every script prefix', '7'),
+    'C09': ('model_checking', 'drain over every layout x every range (all RangeBounds forms) x every consumption script, then drop: yielded ids, len, contents afterwards, destructor runs; includes capacity 0; nth/nth_back and the by-value provided methods (count / last destroy what they skip)', '7'),
     'C10': ('model_checking', 'mem::forget of a drain after every script prefix, then follow-up operations and drop: contents are live, distinct, from the original, disjoint from handed-out elements; no second destructor run', '7'),
-    'C11': ('model_checking', 'panic iff documented (range/drain bounds incl. Included/Excluded(usize::MAX), swap, index); every other call returns for every argument incl. usize::MAX and capacity 0; unchanged contents after a documented panic; a process that dies or hangs is attributed to its scenario', '7'),
+    'C11': ('model_checking', 'panic iff documented (range/drain bounds incl. Included/Excluded(usize::MAX), swap, index); every other call returns for every argument incl. usize::MAX and capacity 0; unchanged contents after a documented panic; a process that dies or hangs is attributed to its scenario; includes the byte-stream unit (consume(usize::MAX), destinations longer than the contents)', '7'),
     'C12': ('model_checking', 'from array (all lengths 0..2N+1), from_iter, new/default/boxed: contents, destroyed prefix, ids', '7'),
     'C13': ('model_checking', 'spec/Observers.tla: TLC proves for every pair of physical states (capacities 0..3 x 0..3 quick / 0..4 thorough, every front position, length and two-letter contents on both sides) that the segment-wise PartialEq alignment, PartialEq<[U]>, iteration order and hash feed equal the functions of the two abstract sequences; every pair is replayed on the real type (==, !=, <, <=, >, >=, partial_cmp, cmp, hash, six slice/array/reference forms, Debug under eleven formatter flag sets) and each result validated against the contract', '7'),
     'C14': ('model_checking', 'write/read/fill_buf/consume/flush from every layout with every length (write 0..2N+1, destination 0..N+2, consume 0..N+2 and usize::MAX) enumerated by TLC on the I/O family of L1, replayed on CircularBuffer<N,u8> with garbage in unoccupied bytes, plus the provided methods read_exact, read_to_end, read_to_string (UTF-8 characters straddling the wrap point, invalid text), read_until, read_vectored, write_all, write_vectored, write_fmt; plus seeded random interleavings at larger capacities; each call validated against the byte-stream clauses of the contract', '7'),
